@@ -12,6 +12,14 @@ THEOREMS = ["c04_delete_is_delete_all", "c04_no_dangling", "c04_victims_unreacha
 # scripted beginnings that build the link topologies deletion has to cope with: several sources of
 # ONE subtree linked from the same entity; an array referenced from groups and tags of its block
 PRELUDES = [
+    # a data frame that is a member of two groups and the data of two features: deleting it from the block takes every
+    # one of those links along (and nothing else)
+    [["create", 0, "CBlocks", "B", "t", []], ["create", 1, "CDataFrames", "df", "t", [1, 2]], ["create", 1, "CDataFrames", "other", "t", [3]],
+     ["create", 1, "CGroups", "g", "t", []], ["create", 1, "CGroups", "h", "t", []], ["create", 1, "CTags", "t", "t", [1]],
+     ["create", 1, "CDataArrays", "p", "t", [1]], ["create_mtag", 1, "m", "t", 7],
+     ["append", 4, "LDataFrames", 2], ["append", 4, "LDataFrames", 3], ["append", 5, "LDataFrames", 2],
+     ["create_feature", 6, 2, "untagged"], ["create_feature", 6, 3, "indexed"], ["create_feature", 8, 2, "indexed"],
+     ["delete", 1, "CDataFrames", ["name", "df"]], ["probe", 1, "CDataFrames"]],
     # features addressed by the id / the name of their data: the FEATURE goes, the array, its group membership and the tag's
     # reference to it stay
     [["create", 0, "CBlocks", "B", "t", []], ["create", 1, "CDataArrays", "a", "t", [1]], ["create", 1, "CDataArrays", "b", "t", [2]],
